@@ -153,7 +153,7 @@ class Boxes(Relation):
 
     def strategy(self, tier):
         sz = G.sizes(1e-3, 1e4)
-        leaf = G.simple_pixel(sz)
+        leaf = G.simple_pixel(sz, max_ratio=1e9)
         near = G.simple_pixel(G.sizes(0.3, 40.0), cmode='near')
         region = st.one_of(leaf, leaf, aligned_family(), aligned_family(),
                            G.grid_polygon(),
